@@ -436,6 +436,10 @@ def run(cx, rep):
         rep.ob("C14.5", "js-cache/filled-by:%s" % "+".join(sorted(fkc[name])), name in touched,
                "module-level cache `%s` in bundler.ts is filled from the file system and never invalidated when a file is updated (updateFileContent does not touch it)" % name,
                bundler_ts.loc(bundler_ts.vars[name][2]))
+    # ---------------------------------------------------------------- C14.9
+    rep.rule("C14.9", "twin accessors of the module tables agree (type / value)")
+    import twins
+    twins.twin_rule(cx, rep, "C14.9", r"swc_tools/", floor=2)
 
 
 INTERIOR = re.compile(r"\b(RefCell|Cell|OnceCell|LazyCell|Mutex|RwLock|Atomic\w+|UnsafeCell|DashMap|OnceLock)\b")
